@@ -95,7 +95,7 @@ def _alt(base):
 
 
 def _letter_fragment(letter, strand):
-    """letter = [gap | None, variant, r1_len]; variant in clean / mm1hi / mm1lo / mm2"""
+    """letter = [gap | None, variant, r1_len]; variant in clean / mm1hi / mm1lo / mm2 / ins1"""
     gap, variant, l1 = letter
     if not strand:
         a = S_FWD
@@ -116,6 +116,12 @@ def _letter_fragment(letter, strand):
     if variant in ('mm1hi', 'mm1lo'):
         r1['seq'][mm1] = _alt(r1['seq'][mm1])
         r1['quals'][mm1] = Q_HI if variant == 'mm1hi' else Q_LO
+    if variant == 'ins1':
+        # R1 carries a one-base insertion (not part of any reference position); placed so that the motif end stays intact
+        k = 4 if not strand else 2
+        r1['seq'] = r1['seq'][:k] + ['T'] + r1['seq'][k:]
+        r1['quals'] = r1['quals'][:k] + [Q_HI] + r1['quals'][k:]
+        r1['cigar'] = [(0, k), (1, 1), (0, l1 - k)]
     r1['seq'] = ''.join(r1['seq'])
     if gap is None:
         if variant == 'mm2':
@@ -138,8 +144,10 @@ def alphabet(tier, level):
     out = []
     for l1 in l1s:
         for gap in gaps:
-            for variant in ('clean', 'mm1hi', 'mm1lo', 'mm2'):
+            for variant in ('clean', 'mm1hi', 'mm1lo', 'mm2', 'ins1'):
                 if variant == 'mm2' and gap is None:
+                    continue
+                if variant == 'ins1' and gap not in (None, 0, 3):
                     continue
                 if tier == 'quick' and level >= 3 and variant == 'mm1lo' and gap not in (None, -2):
                     continue
